@@ -455,6 +455,15 @@ def m_collect(m, callee, a):
         vals = [c.v for c in it.cells[it.pos:]]
         if 'String' in target: return RStr(vals)        # Iter<char>.collect::<String>()
         return VecV([Cell(Ptr(c)) for c in it.cells[it.pos:]])
+    if it.kind in ('own', 'lines', 'mapiter'):
+        vals = [c.v for c in it.cells[it.pos:]]
+        if 'String' in target and 'Vec' not in target:
+            out = []
+            for v in vals:
+                if isinstance(v, (str, Sym)): out.append(v)
+                else: out.extend(as_rstr(v).chars)
+            return RStr(out)
+        return VecV([Cell(v) for v in vals])
     raise Unsupported('collect ' + callee)
 
 
@@ -714,7 +723,9 @@ def m_lines(m, c, a):
     txt = a[0].fields[0].v
     lines, cur = [], []
     for ch in txt.chars:
-        if isinstance(ch, str) and ch == '\n':
+        is_nl = (ch == '\n') if isinstance(ch, str) else m.branch(m.binop('Eq', ch, '\n'))
+        if is_nl:
+            if cur and isinstance(cur[-1], str) and cur[-1] == '\r': cur.pop()
             lines.append(RStr(cur)); cur = []
         else:
             cur.append(ch)
@@ -797,3 +808,429 @@ def m_split(m, c, a):
 @model('str::to_uppercase')
 def m_upper(m, c, a):
     return RStr([ch.upper() if isinstance(ch, str) else ch for ch in as_rstr(a[0]).chars])
+
+
+# ------------------------------------------------------------------ a broader std surface (code under test may change)
+
+def _char_pred(m, ch, ranges, extra=()):
+    """ch in any of the inclusive code-point ranges; symbolic chars fork via the solver"""
+    if isinstance(ch, str):
+        o = ord(ch)
+        return any(lo <= o <= hi for lo, hi in ranges) or ch in extra
+    e = ch.e
+    conds = [z3.And(z3.UGE(e, lo), z3.ULE(e, hi)) for lo, hi in ranges] + [e == ord(x) for x in extra]
+    return m.branch(Sym(z3.Or(conds), 'bool'))
+
+
+def _ascii_guard(m, ch, what):
+    """symbolic characters are supported by the unicode-table predicates only when they are provably ASCII or e-acute"""
+    if isinstance(ch, str): return
+    if m._check(z3.And(z3.UGE(ch.e, 128), ch.e != 0xE9)):
+        raise Unsupported('%s on a symbolic non-ASCII character' % what)
+
+
+@model('char::is_ascii_digit')
+def m_is_ascii_digit(m, c, a): return _char_pred(m, deref_char(a[0]), [(48, 57)])
+
+
+@model('char::is_ascii_alphabetic')
+def m_is_ascii_alpha(m, c, a): return _char_pred(m, deref_char(a[0]), [(65, 90), (97, 122)])
+
+
+@model('char::is_ascii_alphanumeric')
+def m_is_ascii_alnum(m, c, a): return _char_pred(m, deref_char(a[0]), [(48, 57), (65, 90), (97, 122)])
+
+
+@model('char::is_ascii_whitespace')
+def m_is_ascii_ws(m, c, a): return _char_pred(m, deref_char(a[0]), [(9, 10), (12, 13), (32, 32)])
+
+
+@model('char::is_ascii_uppercase')
+def m_is_ascii_upper(m, c, a): return _char_pred(m, deref_char(a[0]), [(65, 90)])
+
+
+@model('char::is_ascii_lowercase')
+def m_is_ascii_lower(m, c, a): return _char_pred(m, deref_char(a[0]), [(97, 122)])
+
+
+@model('char::is_ascii_punctuation')
+def m_is_ascii_punct(m, c, a): return _char_pred(m, deref_char(a[0]), [(33, 47), (58, 64), (91, 96), (123, 126)])
+
+
+@model('char::is_ascii')
+def m_is_ascii(m, c, a): return _char_pred(m, deref_char(a[0]), [(0, 127)])
+
+
+@model('char::is_numeric')
+def m_is_numeric(m, c, a):
+    ch = deref_char(a[0])
+    if isinstance(ch, str): return ch.isnumeric()
+    _ascii_guard(m, ch, 'is_numeric'); return _char_pred(m, ch, [(48, 57)])
+
+
+@model('char::is_digit')
+def m_is_digit(m, c, a):
+    ch = deref_char(a[0]); radix = a[1]
+    if radix != 10: raise Unsupported('is_digit radix %r' % (radix,))
+    return _char_pred(m, ch, [(48, 57)])
+
+
+@model('char::is_whitespace')
+def m_is_whitespace(m, c, a):
+    ch = deref_char(a[0])
+    if isinstance(ch, str): return ch in WS
+    _ascii_guard(m, ch, 'is_whitespace'); return _char_pred(m, ch, [(9, 13), (32, 32)])
+
+
+@model('char::is_alphanumeric')
+def m_is_alnum(m, c, a):
+    ch = deref_char(a[0])
+    if isinstance(ch, str): return ch.isalnum()
+    _ascii_guard(m, ch, 'is_alphanumeric'); return _char_pred(m, ch, [(48, 57), (65, 90), (97, 122), (0xE9, 0xE9)])
+
+
+@model('char::is_uppercase')
+def m_is_upper(m, c, a):
+    ch = deref_char(a[0])
+    if isinstance(ch, str): return ch.isupper()
+    _ascii_guard(m, ch, 'is_uppercase'); return _char_pred(m, ch, [(65, 90)])
+
+
+@model('char::is_lowercase')
+def m_is_lower(m, c, a):
+    ch = deref_char(a[0])
+    if isinstance(ch, str): return ch.islower()
+    _ascii_guard(m, ch, 'is_lowercase'); return _char_pred(m, ch, [(97, 122), (0xE9, 0xE9)])
+
+
+def deref_char(v):
+    while isinstance(v, (Ptr, RcV)): v = v.cell.v
+    return v
+
+
+@model('str::trim_start', 'str::trim_left')
+def m_trim_start(m, c, a):
+    ch = as_rstr(a[0]).chars; i = 0
+    while i < len(ch) and char_in(m, ch[i], WS): i += 1
+    return StrRef(RStr(ch[i:]))
+
+
+@model('str::trim_end', 'str::trim_right')
+def m_trim_end(m, c, a):
+    ch = as_rstr(a[0]).chars; j = len(ch)
+    while j > 0 and char_in(m, ch[j - 1], WS): j -= 1
+    return StrRef(RStr(ch[:j]))
+
+
+def _pattern(m, p):
+    """a str pattern argument: &str / String / char -> list of chars"""
+    while isinstance(p, (Ptr, RcV)) and not isinstance(p.cell.v, (RStr,)): p = p.cell.v
+    if isinstance(p, (str, Sym)): return [p]
+    return list(as_rstr(p).chars)
+
+
+@model('str::ends_with')
+def m_ends_with(m, c, a):
+    s, p = as_rstr(a[0]).chars, _pattern(m, a[1])
+    if len(p) > len(s): return False
+    return str_eq(m, RStr(s[len(s) - len(p):]), RStr(p))
+
+
+@model('str::contains')
+def m_contains(m, c, a):
+    s, p = as_rstr(a[0]).chars, _pattern(m, a[1])
+    for i in range(0, len(s) - len(p) + 1):
+        if str_eq(m, RStr(s[i:i + len(p)]), RStr(p)): return True
+    return False
+
+
+@model('str::find')
+def m_find(m, c, a):
+    s, p = as_rstr(a[0]).chars, _pattern(m, a[1])
+    b = 0
+    for i in range(0, len(s) - len(p) + 1):
+        if str_eq(m, RStr(s[i:i + len(p)]), RStr(p)): return some(b)
+        b += char_utf8_len(m, s[i])
+    return none()
+
+
+def char_utf8_len(m, ch):
+    if isinstance(ch, str): return len(ch.encode('utf-8'))
+    if m.branch(Sym(z3.ULT(ch.e, 0x80), 'bool')): return 1
+    if m.branch(Sym(z3.ULT(ch.e, 0x800), 'bool')): return 2
+    if m.branch(Sym(z3.ULT(ch.e, 0x10000), 'bool')): return 3
+    return 4
+
+
+@model('str::is_empty', 'String::is_empty')
+def m_str_is_empty(m, c, a): return len(as_rstr(a[0]).chars) == 0
+
+
+@model('str::to_lowercase')
+def m_lower(m, c, a):
+    return RStr([ch.lower() if isinstance(ch, str) else ch for ch in as_rstr(a[0]).chars])
+
+
+@model('str::replace')
+def m_replace(m, c, a):
+    s, p, r = as_rstr(a[0]).chars, _pattern(m, a[1]), as_rstr(a[2]).chars
+    out, i = [], 0
+    while i < len(s):
+        if p and i + len(p) <= len(s) and str_eq(m, RStr(s[i:i + len(p)]), RStr(p)):
+            out.extend(r); i += len(p)
+        else:
+            out.append(s[i]); i += 1
+    return RStr(out)
+
+
+@model('String::clear')
+def m_string_clear(m, c, a): as_rstr(a[0]).chars[:] = []; return UNIT
+
+
+@model('String::insert')
+def m_string_insert(m, c, a):
+    s = as_rstr(a[0]); i = m.concretize(a[1])
+    # byte index; supported for ASCII prefixes
+    s.chars.insert(i, a[2]); return UNIT
+
+
+@model('String::truncate')
+def m_string_truncate(m, c, a):
+    s = as_rstr(a[0]); n = m.concretize(a[1]); del s.chars[n:]; return UNIT
+
+
+@model('String::with_capacity')
+def m_string_wc(m, c, a): return RStr([])
+
+
+@model('String::chars', 'String::as_ref')
+def m_string_chars(m, c, a): return IterV('chars', list(as_rstr(a[0]).chars))
+
+
+@model('str::char_indices')
+def m_char_indices(m, c, a):
+    cs = list(as_rstr(a[0]).chars); out = []; b = 0
+    for ch in cs:
+        out.append(Cell(Agg(None, None, None, [b, ch]))); b += char_utf8_len(m, ch)
+    return IterV('own', out)
+
+
+@model('Vec::is_empty', '[]::is_empty')
+def m_vec_is_empty(m, c, a):
+    v = a[0] if isinstance(a[0], SliceRef) else deref(a[0])
+    return len(seq_cells(v)) == 0
+
+
+@model('Vec::clear')
+def m_vec_clear(m, c, a): deref(a[0]).items[:] = []; return UNIT
+
+
+@model('Vec::insert')
+def m_vec_insert(m, c, a):
+    v = deref(a[0]); i = m.concretize(a[1])
+    if i > len(v.items): raise RustPanic('insertion index (is %d) should be <= len (is %d)' % (i, len(v.items)))
+    v.items.insert(i, Cell(a[2])); return UNIT
+
+
+@model('Vec::truncate')
+def m_vec_truncate(m, c, a):
+    v = deref(a[0]); n = m.concretize(a[1]); del v.items[n:]; return UNIT
+
+
+@model('Vec::extend', 'Vec::extend_from_slice')
+def m_vec_extend(m, c, a):
+    v = deref(a[0]); src = a[1]
+    if isinstance(src, IterV):
+        while True:
+            nx = m_iter_next(m, '', [Ptr(Cell(src))])
+            if nx.vidx == 0: break
+            v.items.append(Cell(nx.fields[0].v))
+    else:
+        s = src if isinstance(src, SliceRef) else deref(src)
+        v.items.extend(Cell(deep_clone(m, x.v)) for x in seq_cells(s))
+    return UNIT
+
+
+@model('[]::last', 'Vec::last')
+def m_slice_last(m, c, a):
+    v = a[0] if isinstance(a[0], SliceRef) else deref(a[0])
+    cs = seq_cells(v)
+    return some(Ptr(cs[-1])) if cs else none()
+
+
+@model('[]::first', 'Vec::first')
+def m_slice_first(m, c, a):
+    v = a[0] if isinstance(a[0], SliceRef) else deref(a[0])
+    cs = seq_cells(v)
+    return some(Ptr(cs[0])) if cs else none()
+
+
+@model('[]::get', 'Vec::get')
+def m_slice_get(m, c, a):
+    v = a[0] if isinstance(a[0], SliceRef) else deref(a[0])
+    cs = seq_cells(v); i = m.concretize(a[1])
+    return some(Ptr(cs[i])) if 0 <= i < len(cs) else none()
+
+
+@model('[]::contains', 'Vec::contains')
+def m_slice_contains(m, c, a):
+    v = a[0] if isinstance(a[0], SliceRef) else deref(a[0])
+    x = deref(a[1])
+    return any(values_eq(m, e.v, x) for e in seq_cells(v))
+
+
+@model('Vec::swap_remove')
+def m_swap_remove(m, c, a):
+    v = deref(a[0]); i = m.concretize(a[1])
+    if i >= len(v.items): raise RustPanic('swap_remove index out of bounds')
+    x = v.items[i].v; last = v.items.pop()
+    if i < len(v.items): v.items[i] = last
+    return x
+
+
+@model('[]::reverse', 'Vec::reverse')
+def m_reverse(m, c, a):
+    v = a[0] if isinstance(a[0], SliceRef) else deref(a[0])
+    cs = seq_cells(v); vals = [x.v for x in cs][::-1]
+    for cell, val in zip(cs, vals): cell.v = val
+    return UNIT
+
+
+@model('Option::unwrap_or')
+def m_unwrap_or(m, c, a): return a[0].fields[0].v if a[0].vidx == 1 else a[1]
+
+
+@model('Option::expect')
+def m_expect(m, c, a):
+    if a[0].vidx == 0: raise RustPanic(as_rstr(a[1]).concrete())
+    return a[0].fields[0].v
+
+
+@model('Result::expect')
+def m_rexpect(m, c, a):
+    if a[0].vidx == 1: raise RustPanic(as_rstr(a[1]).concrete())
+    return a[0].fields[0].v
+
+
+@model('Result::is_ok')
+def m_is_ok(m, c, a): return deref(a[0]).vidx == 0
+
+
+@model('Result::is_err')
+def m_is_err(m, c, a): return deref(a[0]).vidx == 1
+
+
+@model('Result::ok')
+def m_res_ok(m, c, a): return some(a[0].fields[0].v) if a[0].vidx == 0 else none()
+
+
+@model('Option::ok_or')
+def m_ok_or(m, c, a): return ok(a[0].fields[0].v) if a[0].vidx == 1 else err(a[1])
+
+
+@model('Option::take')
+def m_opt_take(m, c, a):
+    cell = a[0].cell; v = cell.v; cell.v = none(); return v
+
+
+@model('Option::as_ref', 'Option::as_mut')
+def m_opt_as_ref(m, c, a):
+    o = deref(a[0])
+    return some(Ptr(o.fields[0])) if o.vidx == 1 else none()
+
+
+@model('Option::map', 'Option::and_then', 'Option::unwrap_or_else', 'Option::map_or', 'Option::is_some_and', 'Result::map', 'Result::map_err', 'Result::unwrap_or_else')
+def m_opt_combinators(m, callee, a):
+    key = callee.split('::<')[0].split('::')[-1]
+    o = a[0]
+    is_res = o.ty == 'Result'
+    good = (o.vidx == 0) if is_res else (o.vidx == 1)
+    if key == 'map':
+        if good:
+            r = call_closure(m, a[1], [o.fields[0].v]); return ok(r) if is_res else some(r)
+        return o
+    if key == 'map_err':
+        return o if good else err(call_closure(m, a[1], [o.fields[0].v]))
+    if key == 'and_then': return call_closure(m, a[1], [o.fields[0].v]) if good else o
+    if key == 'unwrap_or_else':
+        return o.fields[0].v if good else call_closure(m, a[1], [o.fields[0].v] if is_res else [])
+    if key == 'map_or': return call_closure(m, a[2], [o.fields[0].v]) if good else a[1]
+    if key == 'is_some_and': return bool(m.branch(call_closure(m, a[1], [o.fields[0].v]))) if good else False
+    raise Unsupported(callee)
+
+
+@model(re.compile(r'^<.* as Iterator>::(map|filter|rev|skip|take|all|any|count|position|for_each|sum|last|nth|peekable|cloned|copied|zip|min|max|find|skip_while|take_while|filter_map|flat_map|chain|step_by)$'))
+def m_iter_adapters(m, callee, a):
+    key = canon_last(callee)
+    it = a[0]
+    def drain():
+        out = []
+        while True:
+            nx = m_iter_next(m, '', [Ptr(Cell(it))])
+            if nx.vidx == 0: return out
+            out.append(nx.fields[0].v)
+    if key == 'map': return IterV('own', [Cell(call_closure(m, a[1], [x])) for x in drain()])
+    if key == 'filter':
+        return IterV('own', [Cell(x) for x in drain() if m.branch(call_closure(m, a[1], [Ptr(Cell(x))]))])
+    if key == 'filter_map':
+        out = []
+        for x in drain():
+            r = call_closure(m, a[1], [x])
+            if r.vidx == 1: out.append(Cell(r.fields[0].v))
+        return IterV('own', out)
+    if key == 'rev': return IterV('own', [Cell(x) for x in drain()[::-1]])
+    if key == 'skip':
+        n = m.concretize(a[1]); return IterV('own', [Cell(x) for x in drain()[n:]])
+    if key == 'take':
+        n = m.concretize(a[1]); return IterV('own', [Cell(x) for x in drain()[:n]])
+    if key in ('cloned', 'copied'): return IterV('own', [Cell(deep_clone(m, deref(x))) for x in drain()])
+    if key == 'peekable' : return it
+    if key == 'chain': return IterV('own', [Cell(x) for x in drain()] + [Cell(x) for x in _drain(m, a[1])])
+    if key == 'zip':
+        xs, ys = drain(), _drain(m, a[1])
+        return IterV('own', [Cell(Agg(None, None, None, [x, y])) for x, y in zip(xs, ys)])
+    if key == 'all':
+        for x in drain():
+            if not m.branch(call_closure(m, a[1], [x])): return False
+        return True
+    if key == 'any':
+        for x in drain():
+            if m.branch(call_closure(m, a[1], [x])): return True
+        return False
+    if key == 'count': return len(drain())
+    if key == 'position':
+        for i, x in enumerate(drain()):
+            if m.branch(call_closure(m, a[1], [x])): return some(i)
+        return none()
+    if key == 'find':
+        for x in drain():
+            if m.branch(call_closure(m, a[1], [Ptr(Cell(x))])): return some(x)
+        return none()
+    if key == 'for_each':
+        for x in drain(): call_closure(m, a[1], [x])
+        return UNIT
+    if key == 'last':
+        xs = drain(); return some(xs[-1]) if xs else none()
+    if key == 'nth':
+        xs = drain(); n = m.concretize(a[1]); return some(xs[n]) if n < len(xs) else none()
+    if key == 'sum':
+        acc = 0
+        for x in drain(): acc = m.binop('Add', acc, deref_char(x)) if isinstance(x, Sym) or isinstance(acc, Sym) else acc + deref_char(x)
+        return acc
+    raise Unsupported('iterator adapter ' + callee)
+
+
+def _drain(m, it):
+    if not isinstance(it, IterV): it = m_into_iter(m, '', [it])
+    out = []
+    while True:
+        nx = m_iter_next(m, '', [Ptr(Cell(it))])
+        if nx.vidx == 0: return out
+        out.append(nx.fields[0].v)
+
+
+def canon_last(callee):
+    s = callee
+    if '::<' in s and s.endswith('>'):
+        s = s[:s.rindex('::<')]
+    return s.split('::')[-1]
